@@ -75,6 +75,8 @@ func runHTTPAuth(cfg *hx.RunCfg) error {
 			"Definition NHGRP := Eval vm_compute in count_if is_hgrp_case cases.\nPrint NHGRP.\n" +
 			"Definition NHGRP_REFUSED_JOIN := Eval vm_compute in count_if is_hgrp_refused_join cases.\nPrint NHGRP_REFUSED_JOIN.\n" +
 			"Definition NHGRP_PROTECTED_DELIVERY := Eval vm_compute in count_if is_hgrp_protected_delivery cases.\nPrint NHGRP_PROTECTED_DELIVERY.\n" +
+			"Definition NMUXRACE_CLOSED := Eval vm_compute in count_if is_muxrace_closed cases.\nPrint NMUXRACE_CLOSED.\n" +
+			"Definition NMUXRACE_DELIVERED := Eval vm_compute in count_if is_muxrace_delivered cases.\nPrint NMUXRACE_DELIVERED.\n" +
 			"Definition NWEB_UNAUTH := Eval vm_compute in count_if is_web_unauth cases.\nPrint NWEB_UNAUTH.\n" +
 			"Definition NWEB_PUBLIC := Eval vm_compute in count_if is_web_public cases.\nPrint NWEB_PUBLIC.\n",
 	}
